@@ -63,8 +63,17 @@ def enc(v):
     raise Unencodable(f"type {type(v).__name__}")
 
 
-def canon(v):
+class Cyclic(Exception):
+    """a value that is not a JSON tree: a container reachable from itself"""
+
+
+def canon(v, _path=None):
     """Python value -> canonical comparable form that keeps int/float/bool and key types apart."""
+    if isinstance(v, (list, tuple, dict)):
+        _path = _path or ()
+        if id(v) in _path:
+            raise Cyclic("the value contains itself")
+        _path = _path + (id(v),)
     if v is None or v is True or v is False:
         return v
     if isinstance(v, int):
@@ -77,9 +86,9 @@ def canon(v):
     if isinstance(v, str):
         return v
     if isinstance(v, (list, tuple)):
-        return [canon(x) for x in v]
+        return [canon(x, _path) for x in v]
     if isinstance(v, dict):
-        return {"o": [[k if isinstance(k, str) else {"nonstr": repr(k)}, canon(x)] for k, x in v.items()]}
+        return {"o": [[k if isinstance(k, str) else {"nonstr": repr(k)}, canon(x, _path)] for k, x in v.items()]}
     return {"py": type(v).__name__, "repr": repr(v)[:80]}
 
 
